@@ -9,7 +9,7 @@ def run(rep, tier, seed, args):
     rep.rule = ('one case = one path of the real connect_randomly / connect_many_to_one for one (|src|, |dest|, evenly, max_connects kind): a complete '
                 'assignment of the RNG outcomes (randint results symbolic then concretised where used as an index, shuffle permutations chosen by the '
                 'engine) and of the comparisons with the symbolic max_connects; non-trivial = at least one source to connect')
-    rep.bounds = {'sources': f'<= {4 if q else 6}', 'destinations': f'<= {3 if q else 4}', 'max_connects': 'inf or an unbounded symbolic int >= 1 under the documented precondition |src| <= |dest| * max_connects',
+    rep.bounds = {'sources': f'<= {4 if q else 7}', 'destinations': f'<= {3 if q else 4}', 'max_connects': 'inf or an unbounded symbolic int >= 1 under the documented precondition |src| <= |dest| * max_connects',
                   'outside': 'larger sets; entity objects other than hashable tokens; World.connect itself (recorded, not executed)'}
     rep.assumptions = ['mosaik.util.random is rebound to a solver-driven source (randint -> symbolic int in [a,b]; shuffle -> engine-chosen Fisher-Yates permutation); CPython\'s random is not executed',
                        'World.connect is a recorder', 'precondition |src| <= |dest|*max_connects assumed (the function asserts it)']
